@@ -48,15 +48,17 @@ Proof.
 Qed.
 
 Lemma stream_read_app (a r : bytes) (k : bytes -> bytes -> dres) :
-  a <> [] -> stream_read (zlen a) (a ++ r) k = k a r.
+  stream_read (zlen a) (a ++ r) k = k a r.
 Proof.
-  intros Ha. unfold stream_read. rewrite stream_take_app. destruct a; [congruence|reflexivity].
+  unfold stream_read. rewrite stream_take_app. destruct a as [|x a]; [reflexivity|].
+  destruct (zlen (x :: a) <? zlen (x :: a)) eqn:E; [lia|reflexivity].
 Qed.
 
-Lemma stream_read_nil (n : Z) (k : bytes -> bytes -> dres) : stream_read n [] k = DEmpty [].
+Lemma stream_read_nil (n : Z) (k : bytes -> bytes -> dres) : n <> 0 -> stream_read n [] k = DEmpty [].
 Proof.
-  unfold stream_read, stream_take. destruct (n <? 0); [reflexivity|].
-  unfold ztake, zdrop. cbn. now rewrite firstn_nil, skipn_nil.
+  intros Hn. unfold stream_read, stream_take. destruct (n <? 0).
+  - destruct (n =? 0) eqn:E; [lia|reflexivity].
+  - unfold ztake, zdrop. rewrite firstn_nil, skipn_nil. destruct (n =? 0) eqn:E; [lia|reflexivity].
 Qed.
 
 Lemma zlen_cons {A} (x : A) (l : list A) : zlen (x :: l) = 1 + zlen l.
@@ -78,7 +80,7 @@ Lemma pccc_ascii_enc_latin1 : pccc_ascii_enc = Some Latin1.
 Proof. reflexivity. Qed.
 Lemma pccc_string_enc_latin1 : pccc_string_enc = Some Latin1.
 Proof. reflexivity. Qed.
-Lemma stringn_enc_1 : stringn_enc 1 = Some Utf8.
+Lemma stringn_enc_1 : stringn_enc 1 = Some Latin1.
 Proof. reflexivity. Qed.
 
 (* ------------------------------------------------------------------ integers *)
@@ -106,13 +108,12 @@ Proof.
   assert (Hl : length (le_enc w z) = w) by apply le_enc_length.
   replace (Z.of_nat w) with (zlen (le_enc w z)) by (unfold zlen; now rewrite Hl).
   rewrite stream_read_app.
-  - unfold unpack_int. rewrite Hl, Nat.eqb_refl. cbn [dres_of_res dwrap].
-    now rewrite int_roundtrip_value.
-  - intros E. rewrite E in Hl. cbn in Hl. lia.
+  unfold unpack_int. rewrite Hl, Nat.eqb_refl. cbn [dres_of_res dwrap].
+  now rewrite int_roundtrip_value.
 Qed.
 
-Lemma int_decode_nil sg w : int_decode sg w [] = DEmpty [].
-Proof. unfold int_decode, elem_decode. now rewrite stream_read_nil. Qed.
+Lemma int_decode_nil sg w : (0 < w)%nat -> int_decode sg w [] = DEmpty [].
+Proof. intros Hw. unfold int_decode, elem_decode. now rewrite stream_read_nil by lia. Qed.
 
 Lemma named_int_encode_ok n sg w z :
   int_row n = Some (sg, w) -> int_in_range sg w z = true -> named_int_encode n (VInt z) = Ok (le_enc w z).
@@ -158,6 +159,46 @@ Proof.
   - now rewrite utf8_decode_ascii.
   - apply forallb_false_nil in H. now subst.
   - apply forallb_false_nil in H. now subst.
+Qed.
+
+(* what [codec_inverts] gives: the encoding, its length in code units, and its decoding *)
+Lemma codec_inverts_spec e s :
+  codec_inverts e s = true ->
+  exists d, text_encode e s = Ok d /\ zlen d = code_units e s * enc_char_size e /\ text_decode e d = Ok s.
+Proof.
+  unfold codec_inverts, code_units. destruct (text_encode e s) as [d|]; [|discriminate].
+  intros H. apply andb_prop in H as [H1 H2]. exists d. split; [reflexivity|]. split.
+  - destruct e; cbn [enc_char_size] in *; lia.
+  - destruct (text_decode e d) as [s'|]; [|discriminate]. f_equal.
+    clear -H2. revert s H2. induction s' as [|c s' IH]; intros [|c2 s] H; cbn [text_eqb] in H; try discriminate; [reflexivity|].
+    apply andb_prop in H as [Hc Hs]. f_equal; [lia|now apply IH].
+Qed.
+
+Lemma text_decode_nil e : text_decode e [] = Ok [].
+Proof. destruct e; reflexivity. Qed.
+
+Lemma text_encode_latin1_chars s d : text_encode Latin1 s = Ok d -> d = s /\ forallb (single_byte Latin1) s = true.
+Proof.
+  revert d. induction s as [|c s IH]; intros d H; cbn [text_encode] in H.
+  - injection H as <-. now split.
+  - cbn [enc_char] in H. destruct ((0 <=? c) && (c <? 256)) eqn:E; [|discriminate].
+    destruct (text_encode Latin1 s) as [rs|] eqn:Er; [|discriminate]. injection H as <-.
+    destruct (IH rs eq_refl) as [-> Hs]. split; [reflexivity|]. cbn [forallb single_byte]. now rewrite E, Hs.
+Qed.
+
+Lemma latin1_dom lsg lw s :
+  str_dom lsg lw Latin1 s = true -> int_in_range lsg lw (zlen s) = true /\ forallb (single_byte Latin1) s = true.
+Proof.
+  unfold str_dom. intros H. apply andb_prop in H as [H1 H2].
+  destruct (codec_inverts_spec _ _ H1) as (d & He & Hl & _).
+  destruct (text_encode_latin1_chars _ _ He) as [-> Hs]. split; [|exact Hs].
+  unfold code_units in H2. rewrite He in H2. cbn [enc_char_size] in H2. now rewrite Z.div_1_r in H2.
+Qed.
+
+Lemma latin1_inverts s : forallb (single_byte Latin1) s = true -> codec_inverts Latin1 s = true.
+Proof.
+  intros H. unfold codec_inverts. rewrite text_encode_single by exact H. cbn [enc_char_size text_decode].
+  rewrite Z.mod_1_r. cbn. clear H. induction s as [|c s IH]; [reflexivity|]. cbn [text_eqb]. now rewrite Z.eqb_refl, IH.
 Qed.
 
 (* ------------------------------------------------------------------ bit strings *)
@@ -269,4 +310,53 @@ Proof.
     cbn [fold_right] in J. injection J as <-. reflexivity.
   - destruct (octet s1); try discriminate. destruct (octet s2); try discriminate.
     destruct (octet s3); try discriminate. destruct (octet s4); try discriminate.
+Qed.
+
+(* ------------------------------------------------------------------ UTF-16 (STRING2) *)
+Lemma utf16_roundtrip s :
+  forallb scalar_ok s = true ->
+  exists d, text_encode Utf16 s = Ok d /\ zlen d mod 2 = 0
+            /\ forall fuel, (length s <= fuel)%nat -> utf16_decode fuel d = Some s.
+Proof.
+  induction s as [|c s IH]; intros H.
+  - exists []. repeat split. intros [|f] _; reflexivity.
+  - cbn [forallb] in H. apply andb_prop in H as [Hc Hs]. destruct (IH Hs) as (d & He & Hm & Hd).
+    cbn [text_encode enc_char]. rewrite Hc. cbn [negb]. rewrite He.
+    unfold scalar_ok, is_surrogate in Hc.
+    destruct (c <? 65536) eqn:E.
+    + eexists. split; [reflexivity|]. split.
+      * cbn [le_enc app]. rewrite !zlen_cons. lia.
+      * intros [|f] Hf; [cbn in Hf; lia|]. cbn [le_enc app utf16_decode].
+        assert (Hu : c mod 256 + 256 * (c / 256 mod 256) = c) by lia. rewrite Hu.
+        destruct ((55296 <=? c) && (c <=? 56319)) eqn:E1; [lia|].
+        destruct ((56320 <=? c) && (c <=? 57343)) eqn:E2; [lia|].
+        rewrite Hd by (cbn in Hf; lia). reflexivity.
+    + eexists. split; [reflexivity|]. split.
+      * cbn [le_enc app]. rewrite !zlen_cons. lia.
+      * intros [|f] Hf; [cbn in Hf; lia|]. cbn [le_enc app utf16_decode].
+        set (hi := 55296 + (c - 65536) / 1024). set (lo := 56320 + (c - 65536) mod 1024).
+        assert (Hhi : hi mod 256 + 256 * (hi / 256 mod 256) = hi) by (unfold hi; lia).
+        assert (Hlo : lo mod 256 + 256 * (lo / 256 mod 256) = lo) by (unfold lo; lia).
+        rewrite Hhi, Hlo.
+        destruct ((55296 <=? hi) && (hi <=? 56319)) eqn:E1; [|unfold hi in E1; lia].
+        destruct ((56320 <=? lo) && (lo <=? 57343)) eqn:E2; [|unfold lo in E2; lia].
+        rewrite Hd by (cbn in Hf; lia). cbn [option_map]. f_equal. f_equal. unfold hi, lo. lia.
+Qed.
+
+Lemma text_eqb_refl s : text_eqb s s = true.
+Proof. induction s as [|c s IH]; [reflexivity|]. cbn [text_eqb]. now rewrite Z.eqb_refl, IH. Qed.
+
+(* every string of Unicode scalar values is in STRING2's domain as far as the codec goes *)
+Lemma utf16_inverts s : forallb scalar_ok s = true -> codec_inverts Utf16 s = true.
+Proof.
+  intros H. destruct (utf16_roundtrip s H) as (d & He & Hm & Hd). unfold codec_inverts. rewrite He.
+  cbn [enc_char_size text_decode]. rewrite Hd.
+  - rewrite text_eqb_refl. lia.
+  - (* two bytes per code unit at least: length s <= length d *)
+    clear -He H. revert d He. induction s as [|c s IH]; intros d He; [cbn; lia|].
+    cbn [forallb] in H. apply andb_prop in H as [Hc Hs].
+    cbn [text_encode enc_char] in He. rewrite Hc in He. cbn [negb] in He.
+    destruct (text_encode Utf16 s) as [ds|] eqn:Es; [|destruct (c <? 65536); discriminate].
+    specialize (IH Hs ds eq_refl).
+    destruct (c <? 65536); injection He as <-; cbn [le_enc app length]; rewrite ?app_length; cbn [length]; lia.
 Qed.
